@@ -221,6 +221,10 @@ static inline std::string mk_take(std::vector<std::pair<std::string, std::string
   if (!dflt) mk_die(std::string("missing key ") + key);
   return dflt;
 }
+static inline bool mk_has(const std::vector<std::pair<std::string, std::string>>& kv, const char* key) {
+  for (auto& p : kv) if (p.first == key) return true;
+  return false;
+}
 static inline void mk_apply(void* base, const MkField* tab, std::vector<std::pair<std::string, std::string>>& kv, const std::string& kind) {
   for (auto& p : kv) if (!mk_set(base, tab, p.first, p.second)) mk_die("unknown key '" + p.first + "' for " + kind);
 }
@@ -271,6 +275,13 @@ static inline bool mk_line(mjSpec* s, const std::string& line) {
 #define MK_TOP(KIND, TYPE, ADDEXPR, TAB) \
   if (kind == KIND) { std::string nm = mk_take(kv, "name", ""); TYPE* x = ADDEXPR; \
     if (!nm.empty()) mjs_setName(x->element, nm.c_str()); mk_apply(x, TAB, kv, kind); return true; }
+  if (kind == "mesh" && mk_has(kv, "plate")) {   // builtin plate mesh: plate=RX,RY (RX*RY vertices)
+    std::string nm = mk_take(kv, "name", ""); mjsMesh* x = mjs_addMesh(s, nullptr);
+    if (!nm.empty()) mjs_setName(x->element, nm.c_str());
+    std::vector<double> pr = mk_nums(mk_take(kv, "plate"));
+    if (mjs_makeMesh(x, mjMESH_BUILTIN_PLATE, pr.data(), (int)pr.size())) mk_die(std::string("makeMesh: ") + mjs_getError(s));
+    mk_apply(x, MK_MESH, kv, kind); return true;
+  }
   MK_TOP("mesh", mjsMesh, mjs_addMesh(s, nullptr), MK_MESH)
   MK_TOP("texture", mjsTexture, mjs_addTexture(s), MK_TEXTURE)
   MK_TOP("material", mjsMaterial, mjs_addMaterial(s, nullptr), MK_MATERIAL)
